@@ -15,6 +15,19 @@ COMMON_NOTE = ("Trusted: Coq 8.16.1 kernel and vm_compute (no native_compute, no
                "from the source by tools/translate.py; CPython/third-party semantics as modelled in coq/theories/Prelude.")
 
 CHECKS = {
+    "C01": dict(
+        text=("Coq theorems over a byte-level executable model of the SSDP codec (build_ssdp_packet, CRLF/LF normalisation, "
+              "aiohttp 3.9.5 HeadersParser.parse_headers, UTF-8 encode / surrogateescape decode, udn_from_usn, get_adjusted_url "
+              "with urlsplit/ip_address as oracles, CaseInsensitiveDict construction via the C16 refinement): for all three "
+              "start lines, every header list in the statement's domain, every sender, the datagram that is built decodes to the "
+              "same start line and, read case-insensitively, exactly the sent headers plus the sender metadata (partial under the "
+              "guard of known finding D27, NUL inside a value, which is proved refuted); the UTF-8 round trip for all scalar "
+              "strings; decode results are fresh header maps, so mutating them never reaches the cached map. The model's decode "
+              "is a pure function; history independence of the implementation (three lru_caches) is established by running "
+              "decode histories with interleaved mutations of earlier results against it on every check."),
+        technique="Coq proof (byte-level parse o build = id, UTF-8 arithmetic, dict lookups via the C16 refinement, frame property of the C16 machine) + differential correspondence over decode histories",
+        design="§4 C01",
+    ),
     "C03": dict(
         text=("Coq theorems by induction over arbitrary histories of the SSDP device tracker (search responses, alive / update "
               "/ byebye / other advertisements, M-SEARCH echoes, purges; arbitrary non-monotone time stamps, any devices, types, "
